@@ -12,15 +12,21 @@ coarsely shows up as one client receiving (part of) another client's answer.
 from . import drivers
 
 VOLATILE = ("date",)
+_EXPIRES = __import__("re").compile(r"(?i)expires=[^;]+")
+
+
+def _steady(k, v):
+    # the Expires attribute of a cookie is "now + lifetime": two runs a second apart differ in it (its value is C16's business)
+    return _EXPIRES.sub("expires=<date>", v) if k == "set-cookie" else v
 
 
 def _wsgi_summary(r, mask):
-    hdrs = [(k, v) for k, v in drivers.norm_headers_wsgi(r.headers) if k not in mask]
+    hdrs = [(k, _steady(k, v)) for k, v in drivers.norm_headers_wsgi(r.headers) if k not in mask]
     return {"status": r.code, "headers": hdrs, "body": r.body, "exc": type(r.exc).__name__ if r.exc is not None else None}
 
 
 def _asgi_summary(r, mask):
-    hdrs = [(k, v) for k, v in drivers.norm_headers_asgi(r.headers) if k not in mask]
+    hdrs = [(k, _steady(k, v)) for k, v in drivers.norm_headers_asgi(r.headers) if k not in mask]
     return {"status": r.status, "headers": hdrs, "body": r.body, "exc": type(r.exc).__name__ if r.exc is not None else None}
 
 
